@@ -348,7 +348,7 @@ TARGETS = [b"/", b"/a/b", b"/a%20b?x=1&y=%zz", b"*", b"http://example.com:80/p?q
            b"http://h?q", b"http://h#f", b"HTTP://H/P", b"http://h//p/q", b"http://u:pw@h:80/p/q?x#y", b"http:/p/q",
            b"http:p", b"1http://h/p", b"a+b-c.d://h/p/q", b"a_b://h/p", b"://h/p", b"/:", b"/a:b", b"a:b:c", b":",
            b"/p/q%3Fx", b"/p;x=1/q", b"/~u/", b"/.%2e/", b"/a%2", b"?x", b"#f", b"p/q", b"p", b"//", b"///",
-           b"/%c3%a9", b"/p/q?\x7e", b"http://[::1]/p", b"http://[/p", b"/[", b"example.com:443"]
+           b"/%c3%a9", b"/p/q?\x7e", b"//a#b?c", b"//p/q#x?y", b"//p?a#b", b"//#", b"//?", b"//p/q?a?b#c#d", b"http://[::1]/p", b"http://[/p", b"/[", b"example.com:443"]
 VERSIONS = [b" HTTP/1.1"] * 7 + [b" HTTP/1.0"] * 3 + [b"", b" HTTP/2.0", b" HTTP/0.9", b" HTTP/1.2"]
 TARGET_ALPHA = b"/%pPqQ2fF4?#:@.a;=&+~-_"
 
